@@ -146,10 +146,22 @@ fn c08_eval(ctx: &mut Ctx, known: &Known, members: &[Yaml], docs: &[Yaml], tag: 
             }
         }
     }
+    // an identifier that is a mapping with ONE quantified key is ONE entry for all(X)/of(X, n)
+    {
+        let inner_all = map1("all(f)", list.clone());
+        forms.push(("all(X) over a mapping whose only key is all(k)".into(), vec![("X".into(), inner_all.clone()), ("condition".into(), ys("all(X)"))], Box::new(|v| t_and(v))));
+        for nn in 0..=2usize {
+            forms.push((format!("of(X, {}) over a mapping whose only key is all(k)", nn), vec![("X".into(), inner_all.clone()), ("condition".into(), ys(&format!("of(X, {})", nn)))], Box::new(move |v| t_of(nn, &[t_and(v)]))));
+            for mm in 1..=len.min(2) {
+                let inner_of = map1(&format!("of(f, {})", mm), list.clone());
+                forms.push((format!("of(X, {}) over a mapping whose only key is of(k, {})", nn, mm), vec![("X".into(), inner_of), ("condition".into(), ys(&format!("of(X, {})", nn)))], Box::new(move |v| t_of(nn, &[t_of(mm, v)]))));
+            }
+        }
+    }
     let mut known_hits = 0;
     for (name, det, table) in forms {
         let use_docs: &[Yaml] = if name.contains("[g mirrors f]") { &docs_g } else { docs };
-        let c = case_of(det, use_docs.to_vec(), vec![0, 2, 15]);
+        let c = case_of(det, use_docs.to_vec(), vec![0, 2, 15, 1]);
         let (ex, p) = run_rule_case(ctx, &c, false);
         let p = match p {
             Some(p) if p.load == "ok" => p,
@@ -158,7 +170,7 @@ fn c08_eval(ctx: &mut Ctx, known: &Known, members: &[Yaml], docs: &[Yaml], tag: 
         // optimised forms: a count that changes only after optimisation is reported here when the
         // model does not reproduce it (otherwise it is a C01 finding, decided by the C01 check)
         if !ex.agree {
-            for mask in [2u64, 15] {
+            for mask in [2u64, 15, 1] {
                 let gv = verdicts_of(&p, mask);
                 for j in 0..docs.len() {
                     let want = table(&col(j)) == Tri::T;
@@ -546,6 +558,42 @@ pub fn run_c11(ctx: &mut Ctx, _known: &Known) {
             }
         }
     }
+    // (1d) arrays of numbers searched through a str() cast, also under all()/of() and optimised: the
+    //      members may be held in any integer type
+    {
+        let arrays: Vec<Vec<u64>> = vec![vec![22, 8443], vec![8443], vec![84, 43], vec![1, 2, 3], vec![]];
+        for (body, cond) in [("str(ports): ['84*', '*43']", "A"), ("str(ports): ['84*', '*43']", "all(A)"), ("str(ports): ['84*', '*43']", "of(A, 2)"),
+            ("all(str(ports)): ['84*', '*43']", "A"), ("of(str(ports), 2): ['84*', '*43', '?^2']", "A"), ("str(ports): ['?^84', '?43$']", "all(A)"), ("str(ports): 8443", "A"), ("str(ports): ['i84*', 'i*43']", "of(A, 2)")] {
+            let text = format!("detection:\n  A:\n    {}\n  condition: {}\ntrue_positives: []\ntrue_negatives: []\n", body, cond);
+            let rule = match Rule::from_str(&text) {
+                Ok(r) => r,
+                Err(_) => continue,
+            };
+            for mask in [0u64, 15, 3, 1] {
+                let rl = if mask == 0 { rule.clone() } else { rule.clone().optimise(implside::opts(mask)) };
+                for a in &arrays {
+                    ctx.evaluations += 1;
+                    ctx.nontrivial.insert(hash_str(&format!("arr{}{}{}{:?}", body, cond, mask, a)));
+                    let ym: Mapping = serde_yaml::from_str(&format!("{{ports: {:?}}}", a)).unwrap();
+                    let js = serde_json::json!({ "ports": a });
+                    let unsigned = MyObj(vec![("ports".to_string(), MyVal::Arr(a.iter().map(|x| MyVal::UInt(*x)).collect()))]);
+                    let signed = MyObj(vec![("ports".to_string(), MyVal::Arr(a.iter().map(|x| MyVal::Int(*x as i64)).collect()))]);
+                    let mut hv: HashMap<String, Vec<i64>> = HashMap::new();
+                    hv.insert("ports".to_string(), a.iter().map(|x| *x as i64).collect());
+                    let mut hu: HashMap<String, Vec<u32>> = HashMap::new();
+                    hu.insert("ports".to_string(), a.iter().map(|x| *x as u32).collect());
+                    let mut ho: HashMap<String, Vec<Option<i16>>> = HashMap::new();
+                    ho.insert("ports".to_string(), a.iter().map(|x| Some(*x as i16)).collect());
+                    let reps = [("yaml mapping", rl.matches(&ym)), ("serde_json value", rl.matches(&js)), ("Object with Value::UInt members", rl.matches(&unsigned)),
+                        ("Object with Value::Int members", rl.matches(&signed)), ("HashMap<String, Vec<i64>>", rl.matches(&hv)), ("HashMap<String, Vec<u32>>", rl.matches(&hu)), ("HashMap<String, Vec<Option<i16>>>", rl.matches(&ho))];
+                    if reps.iter().any(|(_, b)| *b != reps[0].1) {
+                        let dummy = ctx.exchange("tok s:");
+                        ctx.violation("oracle", &format!("rule `{}` / `{}` (mask {}), ports = {:?}: verdicts differ between representations: {:?}", body, cond, mask, a, reps), &dummy, &text, true);
+                    }
+                }
+            }
+        }
+    }
     // (2) the same logical document in four representations gives the same verdicts
     let n = budget(ctx, 1200, 30000);
     for i in 0..n {
@@ -786,6 +834,7 @@ pub fn run_c12(ctx: &mut Ctx, _known: &Known) {
     }
     c12_history(ctx);
     c12_twins(ctx);
+    c12_logging(ctx);
     for i in 0..n {
         let mut r = Rng::new(ctx.seed.wrapping_mul(613).wrapping_add(i as u64));
         let mut c = gen_case(&mut r, vec![0, 15, 10, 7], 5);
@@ -910,6 +959,11 @@ fn c12_twins(ctx: &mut Ctx) {
         "detection:\n  x1:\n    f: 'a*'\n  x2:\n    f: 'a*'\n  x3:\n    f: 'ia*'\n  x4:\n    str(f): 'a*'\n  condition: (x1 and x2) or (x3 and not x4)\n",
         "detection:\n  p:\n    f: ['?^a', '?b$']\n  q:\n    f: ['?(?i)^a', '?b$']\n  r:\n    f: ['i?^a', 'i?b$']\n  condition: of(p, 1) and (q or r) and not all(p)\n",
         "detection:\n  m1:\n    - f: a\n      g: b\n    - f: c\n      g: d\n  m2:\n    - f: a\n      g: b\n    - f: c\n      g: d\n  condition: m1 and m2\n",
+        // members written twice
+        "detection:\n  A:\n    cmd: ['*whoami*', '*x*', '*whoami*', '*host*', '*x*']\n  condition: A\n",
+        "detection:\n  A:\n    cmd: ['i*WhoAmI*', 'i*whoami*', 'i*host*', 'i*WHOAMI*']\n  condition: A\n",
+        "detection:\n  A:\n    cmd: ['?^who', '?ami$', '?^who', '?x', '?ami$']\n  B:\n    f: [a, a, b, a]\n  condition: A or B\n",
+        "detection:\n  A:\n    all(cmd): ['*whoami*', '*x*', '*whoami*']\n  B:\n    of(cmd, 2): ['*who*', '*who*', '*ami*']\n  condition: A or B\n",
     ];
     let docs_txt = ["{cmd: WHOAMI}", "{cmd: whoami}", "{cmd: x}", "{f: a}", "{f: A}", "{f: ab}", "{f: Ab}", "{f: xb}", "{f: 1}", "{f: a, g: b}", "{f: c, g: d}", "{f: a, g: d}", "{}"];
     let docs: Vec<Mapping> = docs_txt.iter().map(|t| serde_yaml::from_str::<Mapping>(t).expect("doc")).collect();
@@ -944,6 +998,70 @@ fn c12_twins(ctx: &mut Ctx) {
                             break;
                         }
                     }
+                }
+            }
+        }
+    }
+}
+
+/// A subscriber that enables everything and keeps nothing: with it installed the engine's `debug!`
+/// lines evaluate their arguments.
+struct AllOn;
+impl tracing::Subscriber for AllOn {
+    fn enabled(&self, _: &tracing::Metadata<'_>) -> bool { true }
+    fn new_span(&self, _: &tracing::span::Attributes<'_>) -> tracing::span::Id { tracing::span::Id::from_u64(1) }
+    fn record(&self, _: &tracing::span::Id, _: &tracing::span::Record<'_>) {}
+    fn record_follows_from(&self, _: &tracing::span::Id, _: &tracing::span::Id) {}
+    fn event(&self, event: &tracing::Event<'_>) {
+        // format the fields, as a real subscriber would
+        struct V(usize);
+        impl tracing::field::Visit for V {
+            fn record_debug(&mut self, _: &tracing::field::Field, value: &dyn std::fmt::Debug) { self.0 += format!("{:?}", value).len(); }
+        }
+        let mut v = V(0);
+        event.record(&mut v);
+    }
+    fn enter(&self, _: &tracing::span::Id) {}
+    fn exit(&self, _: &tracing::span::Id) {}
+}
+
+/// (l) Loading, optimising and matching do not depend on whether a logging subscriber is installed.
+fn c12_logging(ctx: &mut Ctx) {
+    let n = budget(ctx, 150, 3000);
+    let fixed = [
+        ("detection:\n  A:\n    f:\n      k: a\n  condition: A\n", vec!["{f: [{k: a}, {k: b}]}", "{f: [{k: b}, {k: a}]}", "{f: {k: a}}", "{f: []}", "{f: [{k: b}]}"]),
+        ("detection:\n  A:\n    f:\n      k: a\n      j: 1\n  condition: not A\n", vec!["{f: [{k: a, j: 1}, {k: b}]}", "{f: [{k: a}, {k: a, j: 1}]}", "{f: 3}"]),
+        ("detection:\n  A:\n    f: ['a*', '*b']\n  B:\n    g: 1\n  condition: all(A) or int(g) > 0 and not B\n", vec!["{f: ab, g: 1}", "{f: [ax, xb], g: 0}", "{g: x}", "{}"]),
+    ];
+    let mut cases: Vec<(String, Vec<Mapping>)> = fixed.iter().map(|(t, ds)| (format!("{}true_positives: []\ntrue_negatives: []\n", t), ds.iter().map(|d| serde_yaml::from_str::<Mapping>(d).unwrap()).collect())).collect();
+    for i in 0..n {
+        let mut r = Rng::new(ctx.seed.wrapping_mul(877).wrapping_add(i as u64));
+        let c = if i % 3 == 0 { let (det, docs) = gen::gen_special_kind(&mut r, 9); CaseReq { optimised: false, det, tps: vec![], tns: vec![], docs, masks: vec![0] } } else { gen_case(&mut r, vec![0], 4) };
+        if let Ok(text) = serde_yaml::to_string(&implside::rule_value(&c)) {
+            cases.push((text, c.docs.iter().filter_map(|d| d.as_mapping().cloned()).collect()));
+        }
+    }
+    for (text, docs) in cases {
+        let dummy = Exchange { line: format!("logging {}", hash_str(&text)), imp: String::new(), model: String::new(), agree: true, supported: false };
+        for mask in [0u64, 15, 14] {
+            let quiet = match Rule::from_str(&text) { Ok(r) => if mask == 0 { r } else { r.optimise(implside::opts(mask)) }, Err(_) => break };
+            let loud = tracing::subscriber::with_default(AllOn, || Rule::from_str(&text).map(|r| if mask == 0 { r } else { r.optimise(implside::opts(mask)) }));
+            let loud = match loud { Ok(r) => r, Err(_) => { ctx.violation("oracle", "a rule that loads stops loading when a logging subscriber is installed", &dummy, &text, true); break } };
+            ctx.nontrivial.insert(hash_str(&text));
+            let pq = format!("{} {}", quiet.detection.expression, implside::ids_sx(&quiet.detection.identifiers));
+            let pl = format!("{} {}", loud.detection.expression, implside::ids_sx(&loud.detection.identifiers));
+            if pq != pl {
+                ctx.violation("oracle", &format!("mask {}: the rule loaded with a logging subscriber installed prints differently", mask), &dummy, &text, true);
+                break;
+            }
+            for d in &docs {
+                ctx.evaluations += 1;
+                let a = quiet.matches(d);
+                let b = tracing::subscriber::with_default(AllOn, || quiet.matches(d));
+                let c2 = quiet.matches(d);
+                if a != b || a != c2 {
+                    ctx.violation("oracle", &format!("mask {}: document {} gives {} without and {} with a logging subscriber installed", mask, serde_yaml::to_string(d).unwrap_or_default().replace('\n', " "), a, b), &dummy, &text, true);
+                    break;
                 }
             }
         }
